@@ -79,6 +79,11 @@ Proof.
   pose proof (Z.mod_pos_bound t 86400 ltac:(lia)). lia.
 Qed.
 
+(* the same clock time on any two days falls in the same time-of-day slice, however many days lie between them *)
+Lemma second_of_day_periodic t k : second_of_day (t + k * 86400) = second_of_day t.
+Proof. unfold second_of_day. apply Z.mod_add. lia. Qed.
+
+
 Theorem week_start_spec t :
   week_start t <= t < week_start t + 7 * 86400 /\ weekday (week_start t) = 0 /\ week_start t mod 86400 = 0.
 Proof.
